@@ -61,3 +61,157 @@ package table
 //@   ensures[lock] t.#lock_mu == 0
 //@   ensures[permutation] perm(old(t.Data), t.Data)
 //@   ensures[sorted] cfg != nil ==> sortedBy(t.Data, cfg)
+
+// ---- Rows and joins (C10, C03) -------------------------------------------------------------
+
+//@ props C10 C03 C08
+// MergeRows: the union of the rows' keys; where several rows have a key the earliest row wins.
+//@ spec macro firstWith(ms []Row, k string, j int) Bool = 0 <= j && j < len(ms) && has(ms[j], k) && (forall i int :: {ms[i]} 0 <= i && i < j ==> !has(ms[i], k))
+//@ func MergeRows
+//@   opt terminates
+//@   ensures[fresh] result != nil && fresh(result)
+//@   ensures[keys] forall k string :: {has(result, k)} has(result, k) <==> (exists j int :: {ms[j]} 0 <= j && j < len(ms) && has(ms[j], k))
+//@   ensures[earliest-wins] forall k string, j int :: {has(ms[j], k)} firstWith(ms, k, j) ==> result[k] == ms[j][k]
+//@   loop 0 invariant[bounds] 0 <= $i && $i <= len(ms) && res != nil && fresh(res)
+//@   loop 0 invariant[keys] forall k string :: {has(res, k)} has(res, k) <==> (exists j int :: {ms[j]} 0 <= j && j < $i && has(ms[j], k))
+//@   loop 0 invariant[earliest-wins] forall k string, j int :: {has(ms[j], k)} j < $i && firstWith(ms, k, j) ==> res[k] == ms[j][k]
+//@   loop 1 invariant[bounds] 0 <= $outer && $outer < len(ms) && res != nil && fresh(res) && om == ms[$outer]
+//@   loop 1 invariant[visited-are-keys] forall k string :: {$vis[k]} $vis[k] ==> has(ms[$outer], k)
+//@   loop 1 invariant[keys] forall k string :: {has(res, k)} has(res, k) <==> ((exists j int :: {ms[j]} 0 <= j && j < $outer && has(ms[j], k)) || $vis[k])
+//@   loop 1 invariant[earliest-wins] forall k string, j int :: {has(ms[j], k)} (j < $outer || (j == $outer && $vis[k])) && firstWith(ms, k, j) ==> res[k] == ms[j][k]
+
+// A NULL cell: no field set.
+//@ spec macro nullCell(c *Cell) Bool = c != nil && c.S == nil && c.N == nil && c.P == nil && c.L == nil && c.T == nil
+
+// extendRow: the row plus a fresh NULL cell for every binding of bs it lacks.
+//@ func extendRow
+//@   opt terminates
+//@   ensures[fresh] result != nil && fresh(result)
+//@   ensures[keys] forall k string :: {has(result, k)} has(result, k) <==> (has(r, k) || has(bs, k))
+//@   ensures[row-kept] forall k string :: {has(r, k)} has(r, k) ==> result[k] == r[k]
+//@   ensures[missing-are-null] forall k string :: {has(result, k)} has(bs, k) && !has(r, k) ==> nullCell(result[k]) && fresh(result[k])
+//@   loop 0 invariant[fresh] nr != nil && fresh(nr)
+//@   loop 0 invariant[visited-are-keys] forall k string :: {$vis[k]} $vis[k] ==> has(r, k)
+//@   loop 0 invariant[keys] forall k string :: {has(nr, k)} has(nr, k) <==> $vis[k]
+//@   loop 0 invariant[row-kept] forall k string :: {has(r, k)} $vis[k] ==> nr[k] == r[k]
+//@   loop 1 invariant[fresh] nr != nil && fresh(nr)
+//@   loop 1 invariant[visited-are-keys] forall k string :: {$vis[k]} $vis[k] ==> has(bs, k)
+//@   loop 1 invariant[keys] forall k string :: {has(nr, k)} has(nr, k) <==> (has(r, k) || $vis[k])
+//@   loop 1 invariant[row-kept] forall k string :: {has(r, k)} has(r, k) ==> nr[k] == r[k]
+//@   loop 1 invariant[missing-are-null] forall k string :: {has(nr, k)} $vis[k] && !has(r, k) ==> nullCell(nr[k]) && fresh(nr[k])
+
+// extendRowWith: the union of the two rows, the left one winning on shared bindings.
+//@ func extendRowWith
+//@   opt terminates
+//@   ensures[fresh] result != nil && fresh(result)
+//@   ensures[keys] forall k string :: {has(result, k)} has(result, k) <==> (has(r, k) || has(r2, k))
+//@   ensures[left-kept] forall k string :: {has(r, k)} has(r, k) ==> result[k] == r[k]
+//@   ensures[right-added] forall k string :: {has(r2, k)} has(r2, k) && !has(r, k) ==> result[k] == r2[k]
+//@   loop 0 invariant[fresh] nr != nil && fresh(nr)
+//@   loop 0 invariant[visited-are-keys] forall k string :: {$vis[k]} $vis[k] ==> has(r, k)
+//@   loop 0 invariant[keys] forall k string :: {has(nr, k)} has(nr, k) <==> $vis[k]
+//@   loop 0 invariant[left-kept] forall k string :: {has(r, k)} $vis[k] ==> nr[k] == r[k]
+//@   loop 1 invariant[fresh] nr != nil && fresh(nr)
+//@   loop 1 invariant[visited-are-keys] forall k string :: {$vis[k]} $vis[k] ==> has(r2, k)
+//@   loop 1 invariant[keys] forall k string :: {has(nr, k)} has(nr, k) <==> (has(r, k) || $vis[k])
+//@   loop 1 invariant[left-kept] forall k string :: {has(r, k)} has(r, k) ==> nr[k] == r[k]
+//@   loop 1 invariant[right-added] forall k string :: {has(r2, k)} $vis[k] && !has(r, k) ==> nr[k] == r2[k]
+
+// ---- The table itself ---------------------------------------------------------------------
+// wfTable: the binding set mbs holds only `true` entries and AvailableBindings lists exactly its keys.
+//@ spec macro wfTable(t *Table) Bool = t != nil && (forall b string :: {has(t.mbs, b)} has(t.mbs, b) ==> t.mbs[b]) && (forall j int :: {t.AvailableBindings[j]} 0 <= j && j < len(t.AvailableBindings) ==> has(t.mbs, t.AvailableBindings[j])) && (forall b string :: {has(t.mbs, b)} has(t.mbs, b) ==> exists j int :: {t.AvailableBindings[j]} 0 <= j && j < len(t.AvailableBindings) && t.AvailableBindings[j] == b)
+
+//@ func (t *Table) HasBinding
+//@   requires t != nil && t.#lock_mu == 0
+//@   modifies t.#lock_mu
+//@   ensures t.#lock_mu == 0 && result == (has(t.mbs, b) && t.mbs[b])
+
+//@ func (t *Table) Bindings
+//@   requires t != nil && t.#lock_mu == 0
+//@   modifies t.#lock_mu
+//@   ensures t.#lock_mu == 0 && result == t.AvailableBindings
+
+//@ func (t *Table) NumRows
+//@   requires t != nil && t.#lock_mu == 0
+//@   modifies t.#lock_mu
+//@   ensures t.#lock_mu == 0 && result == len(t.Data)
+
+//@ func (t *Table) Rows
+//@   requires t != nil && t.#lock_mu == 0
+//@   modifies t.#lock_mu
+//@   ensures t.#lock_mu == 0 && result == t.Data
+
+//@ func (t *Table) Row
+//@   requires t != nil && t.#lock_mu == 0
+//@   modifies t.#lock_mu
+//@   ensures t.#lock_mu == 0 && result1 == (0 <= i && i < len(t.Data)) && (result1 ==> result0 == t.Data[i]) && (!result1 ==> result0 == nil)
+
+//@ func (t *Table) Truncate
+//@   requires t != nil && t.#lock_mu == 0
+//@   modifies t.Data, t.#lock_mu
+//@   ensures t.#lock_mu == 0 && len(t.Data) == 0
+
+// AddRow drops the key "" from the row it is given and ignores a row without bindings.
+//@ func (t *Table) AddRow
+//@   requires t != nil && t.#lock_mu == 0
+//@   modifies t.Data, t.#lock_mu, contents(r)
+//@   ensures[lock] t.#lock_mu == 0
+//@   ensures[empty-row-ignored] old(forall k string :: {has(r, k)} !has(r, k)) ==> t.Data == old(t.Data)
+//@   ensures[appended] old(exists k string :: {has(r, k)} has(r, k)) ==> len(t.Data) == old(len(t.Data)) + 1 && t.Data[old(len(t.Data))] == r && (forall j int :: {t.Data[j]} 0 <= j && j < old(len(t.Data)) ==> t.Data[j] == old(t.Data[j]))
+//@   ensures[row-kept] forall k string :: {has(r, k)} k != "" ==> (has(r, k) == old(has(r, k)) && r[k] == old(r[k]))
+
+//@ func New
+//@   opt terminates
+//@   ensures[value-or-error] (result0 != nil && result1 == nil) || (result0 == nil && result1 != nil)
+//@   ensures[new] result0 != nil ==> fresh(result0) && result0.#lock_mu == 0 && len(result0.Data) == 0 && result0.AvailableBindings == bs && (forall b string :: {has(result0.mbs, b)} has(result0.mbs, b) <==> exists j int :: {bs[j]} 0 <= j && j < len(bs) && bs[j] == b)
+//@   loop 0 invariant m != nil && fresh(m) && 0 <= $i && $i <= len(bs) && (forall b string :: {has(m, b)} has(m, b) <==> exists j int :: {bs[j]} 0 <= j && j < $i && bs[j] == b) && (forall b string :: {has(m, b)} has(m, b) ==> m[b])
+
+// Binding sets are maps whose entries are all `true` (bindingSet); the helpers below are stated for such maps.
+//@ spec macro bindingSet(b map[string]bool) Bool = forall k string :: {has(b, k)} has(b, k) ==> b[k]
+
+//@ func disjointBindings
+//@   opt terminates
+//@   requires bindingSet(b1) && bindingSet(b2)
+//@   ensures result <==> (forall k string :: {has(b1, k)} !(has(b1, k) && has(b2, k)))
+//@   loop 0 invariant forall k string :: {$vis[k]} $vis[k] ==> !has(b2, k)
+
+//@ func intersectBindings
+//@   opt terminates
+//@   ensures result != nil && fresh(result) && bindingSet(result)
+//@   ensures[keys] forall k string :: {has(result, k)} has(result, k) <==> (has(bs1, k) && has(bs2, k))
+//@   loop 0 invariant res != nil && fresh(res) && bindingSet(res) && (forall k string :: {$vis[k]} $vis[k] ==> has(bs1, k)) && (forall k string :: {has(res, k)} has(res, k) <==> ($vis[k] && has(bs2, k)))
+
+//@ func unionBindings
+//@   opt terminates
+//@   ensures result != nil && fresh(result) && bindingSet(result)
+//@   ensures[keys] forall k string :: {has(result, k)} has(result, k) <==> (has(bs1, k) || has(bs2, k))
+//@   loop 0 invariant res != nil && fresh(res) && bindingSet(res) && (forall k string :: {$vis[k]} $vis[k] ==> has(bs1, k)) && (forall k string :: {has(res, k)} has(res, k) <==> $vis[k])
+//@   loop 1 invariant res != nil && fresh(res) && bindingSet(res) && (forall k string :: {$vis[k]} $vis[k] ==> has(bs2, k)) && (forall k string :: {has(res, k)} has(res, k) <==> (has(bs1, k) || $vis[k]))
+
+//@ func equalBindings
+//@   opt terminates
+//@   requires bindingSet(b1) && bindingSet(b2)
+//@   ensures[subset] result ==> (forall k string :: {has(b1, k)} has(b1, k) ==> has(b2, k))
+//@   loop 0 invariant forall k string :: {$vis[k]} $vis[k] ==> has(b2, k)
+
+// mergeOf(x, r1, r2): x is the union of r1 and r2, r1 winning on shared bindings.
+//@ spec macro mergeOf(x Row, r1 Row, r2 Row) Bool = x != nil && (forall k string :: {has(x, k)} has(x, k) <==> (has(r1, k) || has(r2, k))) && (forall k string :: {has(r1, k)} has(r1, k) ==> x[k] == r1[k]) && (forall k string :: {has(r2, k)} has(r2, k) && !has(r1, k) ==> x[k] == r2[k])
+
+// DotProduct: every left row paired with every right row, left-major.
+//@ func (t *Table) DotProduct
+//@   opt terminates
+//@   requires t != nil && t2 != nil && t != t2 && t.#lock_mu == 0 && bindingSet(t.mbs) && bindingSet(t2.mbs)
+//@   modifies t.mbs, t.AvailableBindings, t.Data, t.#lock_mu
+//@   ensures[lock] t.#lock_mu == 0
+//@   ensures[disjoint-or-error] result == nil <==> (forall k string :: {has(old(t.mbs), k)} !(has(old(t.mbs), k) && has(t2.mbs, k)))
+//@   ensures[error-leaves-table] result != nil ==> t.Data == old(t.Data) && t.mbs == old(t.mbs) && t.AvailableBindings == old(t.AvailableBindings)
+//@   ensures[bindings] result == nil ==> bindingSet(t.mbs) && (forall k string :: {has(t.mbs, k)} has(t.mbs, k) <==> (has(old(t.mbs), k) || has(t2.mbs, k)))
+//@   ensures[size] result == nil ==> len(t.Data) == old(len(t.Data)) * len(t2.Data)
+//@   ensures[rows] result == nil ==> (forall i int, j int :: {old(t.Data[i]), t2.Data[j]} 0 <= i && i < old(len(t.Data)) && 0 <= j && j < len(t2.Data) ==> mergeOf(t.Data[i * len(t2.Data) + j], old(t.Data[i]), t2.Data[j]))
+//@   loop 0 invariant[m] t.#lock_mu == 2 && m != nil && fresh(m) && bindingSet(m) && (forall k string :: {$vis[k]} $vis[k] ==> has(t.mbs, k)) && (forall k string :: {has(m, k)} has(m, k) <==> $vis[k]) && t.mbs == old(t.mbs) && t.Data == old(t.Data)
+//@   loop 1 invariant[m] t.#lock_mu == 2 && m != nil && fresh(m) && bindingSet(m) && (forall k string :: {$vis[k]} $vis[k] ==> has(t2.mbs, k)) && (forall k string :: {has(m, k)} has(m, k) <==> (has(t.mbs, k) || $vis[k])) && t.mbs == old(t.mbs) && t.Data == old(t.Data)
+//@   loop 2 invariant[bindings] t.#lock_mu == 2 && t.mbs != nil && fresh(t.mbs) && bindingSet(t.mbs) && (forall k string :: {has(t.mbs, k)} has(t.mbs, k) <==> (has(old(t.mbs), k) || has(t2.mbs, k))) && t.Data == old(t.Data)
+//@   loop 3 invariant[rows] t.#lock_mu == 2 && 0 <= $i && $i <= len(td) && td == old(t.Data) && cnt == $i * len(t2.Data) && len(t.Data) == len(td) * len(t2.Data) && bindingSet(t.mbs) && (forall k string :: {has(t.mbs, k)} has(t.mbs, k) <==> (has(old(t.mbs), k) || has(t2.mbs, k)))
+//@   loop 3 invariant[done] forall i int, j int :: {td[i], t2.Data[j]} 0 <= i && i < $i && 0 <= j && j < len(t2.Data) ==> mergeOf(t.Data[i * len(t2.Data) + j], td[i], t2.Data[j])
+//@   loop 4 invariant[rows] t.#lock_mu == 2 && 0 <= $outer && $outer < len(td) && 0 <= $i && $i <= len(t2.Data) && td == old(t.Data) && cnt == $outer * len(t2.Data) + $i && len(t.Data) == len(td) * len(t2.Data) && bindingSet(t.mbs) && (forall k string :: {has(t.mbs, k)} has(t.mbs, k) <==> (has(old(t.mbs), k) || has(t2.mbs, k)))
+//@   loop 4 invariant[done] forall i int, j int :: {td[i], t2.Data[j]} 0 <= i && 0 <= j && j < len(t2.Data) && (i < $outer || (i == $outer && j < $i)) ==> mergeOf(t.Data[i * len(t2.Data) + j], td[i], t2.Data[j])
